@@ -917,6 +917,9 @@ func (fx *FnCtx) evalCall(env *Env, x *SCall) SV {
 		}
 		return SV{V: out}
 	}
+	if sf.Opaque && fx.root.boundedK == 0 {
+		return fx.opaqueCall(x, sf, sub, spkg, rtyp, argTerms, argSorts)
+	}
 	sub.hint = rtyp
 	r := fx.evalSpec(sub, sf.Body)
 	if r.Untyped {
@@ -972,6 +975,34 @@ func (fx *FnCtx) evalQuant(env *Env, q *SQuant) SV {
 				}
 				return boolSV(Or(parts...))
 			}
+		}
+		if fx.root.boundedK > 0 && !lo.hasBnd && !hi.hasBnd {
+			// bounded instance search: ranges are explored up to 8 elements, so goals stay
+			// quantifier-free and the solver can return a model
+			const nq = 8
+			fx.assume(tc.IdxLe(tc.IdxSub(hi, lo), tc.IdxNum(nq)))
+			var parts []*Term
+			for k := int64(0); k < nq; k++ {
+				sub := env.child()
+				iv := tc.IdxAdd(lo, tc.IdxNum(k))
+				sub.vars[name] = SV{V: Value{T: types.Typ[types.Int], L: []*Term{iv}}}
+				if sub.oldEnv != nil {
+					o := sub.oldEnv.child()
+					o.vars[name] = sub.vars[name]
+					sub.oldEnv = o
+				}
+				in := tc.IdxLt(iv, hi)
+				b := fx.evalBool(sub, q.Body)
+				if q.Forall {
+					parts = append(parts, Implies(in, b))
+				} else {
+					parts = append(parts, And(in, b))
+				}
+			}
+			if q.Forall {
+				return boolSV(And(parts...))
+			}
+			return boolSV(Or(parts...))
 		}
 		bv := BoundVar(name, tc.IdxSort())
 		sub := env.child()
